@@ -518,6 +518,19 @@ def deepcopy_ir():
     if not (isinstance(first, ast.Assign) and isinstance(first.value, ast.Call)):
         raise Fail('first statement is not a constructor call')
     c = first.value
+    # the local that holds the copy may have any name: it is reported under the canonical name `copied`
+    if len(first.targets) != 1 or not isinstance(first.targets[0], ast.Name):
+        raise Fail('the constructor call is not bound to a local')
+    local = first.targets[0].id
+    if local != 'copied':
+        class Ren(ast.NodeTransformer):
+            def visit_Name(self, n):
+                return ast.copy_location(ast.Name(id='copied', ctx=n.ctx), n) if n.id == local else n
+        if any(isinstance(n, ast.Name) and n.id == 'copied' for n in ast.walk(f)):
+            raise Fail('both `copied` and another local hold the copy')
+        f = Ren().visit(f)
+        first = f.body[0]
+        c = first.value
     kw = {(k.arg or '**'): ast.unparse(k.value) for k in c.keywords}
     later = []
     for st in f.body[1:]:
